@@ -151,7 +151,10 @@ func (pkg EEDPackage) WriteTo(ch BytesChannel) error {
 	// x servername
 	// x procname
 	// 2 linenr
-	length := 11 + len(pkg.SQLState) + len(pkg.Msg) + len(pkg.ServerName) + len(pkg.ProcName)
+	// 4 bytes message number, state, class, SQL state length, status,
+	// 2 bytes transaction state, 2 bytes message length, server name
+	// length, proc name length and 2 bytes line number
+	length := 16 + len(pkg.SQLState) + len(pkg.Msg) + len(pkg.ServerName) + len(pkg.ProcName)
 
 	if err := ch.WriteUint16(uint16(length)); err != nil {
 		return fmt.Errorf("failed to write length: %w", err)
